@@ -740,7 +740,7 @@ func inlineCall(prog *load.Program, pk *load.Package, f *ast.File, src []byte, t
 			return edit{start: callStart, end: callEnd, text: "(" + substExpr(h, hsrc, htf, rs.Results[0], subst) + ")"}, ""
 		}
 	}
-	if hasDefer && !namedResults(d) {
+	if !namedResults(d) {
 		// tail position: `return h(...)` as a whole statement - the helper's deferred calls run when the helper returns,
 		// which is when this statement completes, and before any deferred call the caller registered earlier: exactly
 		// what happens when the body stands in place of the statement (its returns are the caller's)
